@@ -597,6 +597,10 @@ EXTRA_CORPUS = [
     "<*/*/:1,3>*", "<a/*/:1,>*", "<*/:2,>", "<*/*/:1,>", "[!z-a]", "[z-a]", "src/[!9-0]*.rs", "{a,b/[!z-a]}", "<[!b-a]:1,3>",
     "<</a:1,>:0,>b", "<{</a:1,>,</b:1,>}:0,>", "<</a:1,>>b", "<</a:1,>:0,1>b", "{</a:1,>,b}", "<</**/a:1,>:0,>b",
     "<{/a,/b}:1,>", "<</a:1,2>:0,2>", "/{a,b}", "/<a:1,>", "{a,b}{c,d}", "<a:1,2><b:0,1>",
+    "<a{*/,*/*/}>*", "<a{*/,*/*/}:1,>*", "<a<*/:0,2>>*", "a{*/,*/*/}", "[a&&b]", "[a&]", "[&&]", "[a~~b]", "[!a&&b]",
+    "[+-9]", "v[+-9]<[0-9]:1,>", "[ -~]", "**/*.[+-9]", "x<a:0,1>", "{a<b:0,1>,ab}", "a/<b/:0,1>c",
+    "{{a/**,*.rs},{*.pdf,*.tex}}", "{a,{b,c},{d,{e,f}}}", "a/.(?i)./b", "{a,.(?i).}", "**/.(?-i).",
+    "(?i)PKG/*/lib.rs", "(?i)a/*/*", "日本/**/*.txt", "é/金/*[a]",
 ]
 
 
@@ -629,6 +633,8 @@ def enum_depth_pairs(triples=False):
             for y in toks:
                 for lead in leads:
                     yield normalize(lead + x + g + y)
+                    # closed by a literal: a trailing separator inside y then ends a component
+                    yield normalize(lead + x + g + y + [("lit", "z")])
                 if triples:
                     for g2 in glues:
                         for z in toks[:6]:
@@ -712,3 +718,55 @@ def enum_rule_family():
                     continue
                 seen.add(t)
                 yield g
+
+
+def enum_exhaustive_family():
+    """Open-ended repetitions and alternations of bounded-depth bodies next to trailing wildcards:
+    the shapes on which the exhaustiveness and depth folds sum, multiply and reset terms."""
+    L = lambda t: [("lit", t)]
+    S = ("sep",)
+    Z = ("zom",)
+    comp = [Z, S]
+    bodies = [
+        comp, comp + comp, L("a") + comp,
+        L("a") + [("alt", [comp, comp + comp])],                  # a{*/,*/*/}
+        L("a") + [("rep", comp, (0, 2))],                         # a<*/:0,2>
+        [("alt", [comp, comp + comp])],                           # {*/,*/*/}
+        L("a") + [("tree", True, False)],                         # a/**
+        L("a") + [S] + [("alt", [L("b"), L("b") + [S] + L("c")])],  # a/{b,b/c}
+        [("alt", [L("a") + [S], L("b") + [("tree", True, True)]])],
+    ]
+    forms = [None, (1, None), (0, 2), (2, None), (1, 2)]
+    prefixes = [[], L("x"), L("x") + [S], [("tree", False, True)]]
+    suffixes = [[], [Z], L("y"), [Z] + L(".rs")]
+    for pre in prefixes:
+        for b in bodies:
+            for f in forms:
+                for suf in suffixes:
+                    yield normalize(pre + [("rep", b, f)] + suf)
+            for suf in suffixes:
+                yield normalize(pre + [("alt", [b, L("k")])] + suf)
+
+
+def enum_invariant_nesting_family():
+    """Invariant text assembled from nested groups that contain separators (the text fold joins
+    fragments across group boundaries; partition and the walk anchor are derived from it)."""
+    L = lambda t: [("lit", t)]
+    S = ("sep",)
+    bc = L("b") + [S] + L("c")
+    heads = [
+        [("alt", [L("a") + [S] + [("alt", [bc])]])],                  # {a/{b/c}}
+        [("alt", [L("a") + [S] + [("rep", bc, (2,))]])],              # {a/<b/c:2>}
+        [("rep", L("a") + [S] + [("alt", [bc])], (1,))],              # <a/{b/c}:1>
+        [("alt", [[("alt", [L("a") + [S] + L("b")])] + [S] + L("c")])],  # {{a/b}/c}
+        L("a") + [S] + [("alt", [L("b") + [S] + [("alt", [L("c") + [S] + L("d")])]])],  # a/{b/{c/d}}
+        [("alt", [L("p") + [S] + [("rep", L("s") + [S] + L("l"), (2,))]])],             # {p/<s/l:2>}
+        [("rep", [("rep", L("a") + [S], (2,))] + L("b"), (1,))],      # <<a/:2>b:1>
+        L("x") + [("alt", [[S] + L("a") + [("alt", [[S] + L("b")])]])],                   # x{/a{/b}}
+    ]
+    tails = [[], [S] + [("zom",)], L("k") + [("zom",)], [S] + [("zom",)] + L(".txt"), [S] + L("y"), [("zom",)]]
+    leads = [[], [S], L("r") + [S]]
+    for lead in leads:
+        for h in heads:
+            for t in tails:
+                yield normalize(lead + h + t)
